@@ -61,7 +61,7 @@ ASSUMPTIONS = [
 ]
 PART_KINDS = ('pstr', 'pnum', 'pint', 'pbool', 'pfloat', 'pts', 'pcat')
 COL_KINDS = ('i64', 'i32', 'f64', 'str', 'obj', 'bool', 'dt', 'cat', 'u8')
-SORT_KEYS = ('nrows', 'path', 'rpath', 'offset')
+SORT_KEYS = ('nrows', 'path', 'rpath', 'offset', 'const')
 
 
 def sort_key_fn(name):
@@ -73,6 +73,9 @@ def sort_key_fn(name):
         return lambda rg: tuple(-ord(c) for c in rg.columns[0].file_path)
     if name == 'offset':
         return lambda rg: -rg.num_rows
+    if name == 'const':
+        # every row group ties: a stable sort leaves the order alone
+        return lambda rg: 0
     return None
 
 
@@ -88,11 +91,14 @@ def generate(seed, idx, tier):
     # some frames carry rows without a partition key (dropped on write)
     shape['pnull'] = bool(nparts) and rng.random() < 0.3
     many = rng.random() < 0.12
+    huge = not nparts and rng.random() < 0.04     # more than 32 row groups
     f0 = gen_frame_spec(rng, shape, 0, permute=False,
-                        min_rows=24 if many else 1)
+                        min_rows=36 if huge else 24 if many else 1)
     op = {'op': 'write', 'frame': f0}
     op.update(gen_wopts(rng, f0['nrows'], has_cat, knobs))
-    if many:
+    if huge:
+        op['rgo'] = 1
+    elif many:
         op['rgo'] = rng.choice((2, 3))
     op['has_nulls'] = gen_has_nulls(rng, shape)
     ops = [op]
@@ -107,7 +113,11 @@ def generate(seed, idx, tier):
             o = {'op': 'remove', 'sel': [rng.random() for _ in range(4)],
                  'frac': rng.choice((0.15, 0.34, 0.5, 0.75)),
                  'sort_pnames': rng.random() < 0.5,
-                 'how': rng.choice(('list', 'single', 'list'))}
+                 'how': rng.choice(('list', 'single', 'list')),
+                 # on the real directory: handle opened from the path of the
+                 # summary file (no filesystem object on it: the library's
+                 # default remove is used)
+                 'via_meta_path': rng.random() < 0.5}
         else:
             f = gen_frame_spec(rng, shape, batch)
             o = {'op': kind, 'frame': f}
@@ -334,10 +344,17 @@ def _execute(case, fs, ds, res, cnt, probes, bump, violation, parts, pkinds):
                         compression=kw.get('compression'),
                         stats=kw.get('stats', 'auto'), **D.io(fs))
                     _add(rows, order, df, parts)
-                    if op.get('sort_key'):
+                    if op.get('sort_key') and op['sort_key'] != 'const':
                         ordered = False
                 elif kind == 'remove':
-                    pf = D.open_pf(ds, fs)
+                    if D.is_local(fs) and op.get('via_meta_path') and \
+                            not op['sort_pnames']:
+                        # (such a handle carries no filesystem object and
+                        # cannot rename: renumbering is not asked of it)
+                        pf = D.ParquetFile(ds + '/_metadata')
+                        bump(probes, 'removal_through_summary_path_handle')
+                    else:
+                        pf = D.open_pf(ds, fs)
                     n = len(pf.row_groups)
                     if n < 2:
                         continue
